@@ -5,7 +5,11 @@ extractor / parser / merged-parser levels, options from file names, NotSupported
 TREE (PYTHONPATH = shims + /repo/Python/libraries/*, never site-packages) on 16 processes; every failing or erroring
 case is a concrete failing input.  No theorem can stand for 'the whole implementation on 15,000 literal cases'
 (DESIGN.md §3 C19); the Lean model takes part only through the other properties' correspondence runs, whose
-first-run corpus is this same Specs corpus."""
+first-run corpus is this same Specs corpus.
+
+The replay (b) demands exactly what the repository's runner demands (per recogniser: count, TypeName, Text, the
+Resolution keys its test module compares; Start / End only where that module compares them).  For the families the
+model covers end to end (a: lib/c19model.py) the comparison is the property's own — every field the Specs state."""
 import os
 import re
 import shutil
@@ -29,8 +33,10 @@ ASSUMPTIONS = ['datedelta / grapheme are shims (harness/shims); spec cases whose
 
 
 def correspond(ctx):
-    # (a) the model as kernel-checked intermediary for the spec families it covers (IP, GUID, boolean): Lean proves
-    #     model = spec (RTV.Props.C19), this correspondence gives implementation = model on the same inputs
+    # (a) the model as kernel-checked intermediary for the spec families it covers (IP, GUID, boolean, hashtag, mention,
+    #     e-mail, URL): Lean proves model = spec (RTV.Props.C19) in EVERY field the Specs state (offsets where given,
+    #     every Resolution key — more than the repository's runner compares), this correspondence gives
+    #     implementation = model on the same inputs and fields, and implementation against spec field by field
     c19model.model_cases(ctx)
     # (b) everything: exhaustive replay through the repository's own runner
     scratch = os.path.join(common.VERIF, '.scratch', 'c19-%d' % os.getpid())
